@@ -36,6 +36,12 @@ def twin(name, path, edit):
     return Variant("twin", name, path, edit)
 
 
+def repair(name, path, edit, rule, construct=None):
+    """A repaired version of a construct that is listed as a known finding: the finding of ``rule`` must disappear and
+    nothing new may be reported (shows that the rule is silent on correct code, cf. DESIGN §7)."""
+    return Variant("repair", name, path, edit, rule, construct)
+
+
 def _module_by_path(prog, path):
     for m in prog.modules.values():
         if m.path == path:
@@ -108,6 +114,16 @@ def _run_one(args):
     rc = {}
     for f in ctx.findings:
         rc[(f.rule, f.construct)] = rc.get((f.rule, f.construct), 0) + 1
+    if v.kind == "repair":
+        before = sum(n for (r, c), n in base_rc.items() if r == v.rule and (v.construct is None or v.construct in c))
+        after = sum(n for (r, c), n in rc.items() if r == v.rule and (v.construct is None or v.construct in c))
+        if new:
+            return (idx, "fail", "repair %s produced new findings: %s" % (v.name, [(f.rule, f.construct, f.message) for f in new]))
+        if before == 0:
+            return (idx, "skipped", "nothing to repair on this tree")
+        if after < before:
+            return (idx, "ok", "finding of %s gone (%d -> %d)" % (v.rule, before, after))
+        return (idx, "fail", "repair %s did not silence %s (%d -> %d)" % (v.name, v.rule, before, after))
     if rc != base_rc:
         extra = [(f.rule, f.construct, f.message) for f in new]
         return (idx, "fail", "twin %s changed the findings: %s" % (v.name, extra))
@@ -127,7 +143,8 @@ def run_variants(prop, mod, prog, base_ctx, tier, seed):
         rnd = random.Random(seed)
         w = [i for i in idxs if allv[i].kind == "witness"]
         t = [i for i in idxs if allv[i].kind == "twin"]
-        idxs = sorted(rnd.sample(w, min(3, len(w))) + rnd.sample(t, min(2, len(t))))
+        r = [i for i in idxs if allv[i].kind == "repair"]
+        idxs = sorted(rnd.sample(w, min(3, len(w))) + rnd.sample(t, min(2, len(t))) + r)
     base_keys = {f.key() for f in base_ctx.findings}
     base_rc = {}
     for f in base_ctx.findings:
